@@ -230,7 +230,8 @@ def server_mutations():
     # ---- request line
     for i, meth in enumerate(["POST", "get", "GETX", "", "G ET"]):
         m(f"method/{i}", "reject")(lambda s, r, meth=meth: s.__setitem__("rl", [meth] + s["rl"][1:]))
-    for i, v in enumerate(["HTTP/1.0", "HTTP/2", "http/1.1", "HTTP/1.1/2", "HTTP1.1", "HTTP/1.10", "HTTP/ 1.1", "", "HTTP/1.1x"]):
+    for i, v in enumerate(["HTTP/1.0", "HTTP/2", "http/1.1", "HTTP/1.1/2", "HTTP1.1", "HTTP/1.10", "HTTP/ 1.1", "", "HTTP/1.1x",
+                           "HTTP/1", "HTTP/1.", "HTTP/.1", "HTTP/.", "HTTP/", "HTTP/11", "HTTP/1.1.1", "/1.1", "HTTP/1,1"]):
         m(f"httpversion/{i}", "reject")(lambda s, r, v=v: s.__setitem__("rl", s["rl"][:2] + [v]))
     m("rl/extra-token", "reject")(lambda s, r: s.__setitem__("rl", s["rl"] + ["x"]))
     m("rl/two-tokens", "reject")(lambda s, r: s.__setitem__("rl", s["rl"][:2]))
@@ -753,11 +754,61 @@ def build_cases(ck):
     return S, Cc, E
 
 
+def multi_cases(rng, n):
+    """op sequences on one server factory with a connection limit; the independent oracle is in analyse_multi"""
+    out = [{"max": 1, "ops": [["open"], ["open"], ["open"], ["lose", 0], ["open"], ["open"]]},
+           {"max": 2, "ops": [["open"], ["open"], ["open"], ["open"], ["open"], ["lose", 1], ["open"], ["open"]]},
+           {"max": 3, "ops": [["open"]] * 3 + [["open"]] * 4 + [["lose", 0], ["lose", 1]] + [["open"]] * 4},
+           {"max": 0, "ops": [["open"]] * 6}]
+    for i in range(n):
+        mx = rng.choice([1, 1, 2, 2, 3, 4])
+        ops, k = [], 0
+        for _ in range(rng.randint(4, 14)):
+            if k and rng.random() < 0.3:
+                ops.append(["lose", rng.randrange(k)])
+            else:
+                ops.append(["open"]); k += 1
+        out.append({"max": mx, "ops": ops})
+    return out
+
+
+def analyse_multi(ck, fw, M, R):
+    for case, x in zip(M, R):
+        if "driver_error" in x:
+            ck.violation("harness/driver_error", x["driver_error"], {"case": case, "tb": x.get("tb")}, found_input=False); continue
+        live, opened, status = set(), set(), {}
+        k = 0
+        for op, t in zip(case["ops"], x["trace"]):
+            if op[0] == "open":
+                live.add(k)
+                admitted = case["max"] == 0 or len(live) <= case["max"]
+                status[k] = "OPEN" if admitted else "CLOSED"
+                if admitted: opened.add(k)
+                else: live.discard(k)           # refused: dropped and reported lost at once
+                k += 1
+            else:
+                live.discard(op[1]); opened.discard(op[1])
+                if op[1] in status: status[op[1]] = "CLOSED"
+            want = [status[i] for i in range(k)]
+            ck.bump(f"{fw}/multi/steps")
+            rep = {"role": "multi", "framework": fw, "case": case, "step": len(want), "expected_states": want, "observed": t}
+            if t["escaped"]:
+                ck.violation(escape_key("server", t["escaped"][0]), "exception escapes in a multi-connection scenario", rep, found_input=True); break
+            if t["states"] != want or t["count"] != len(live):
+                n_open = sum(1 for s_ in t["states"] if s_ == "OPEN")
+                if case["max"] and n_open > case["max"]:
+                    ck.violation("server/connection-limit/exceeded", f"{n_open} connections are OPEN on a factory with maxConnections={case['max']}", rep, found_input=True)
+                else:
+                    ck.violation("server/connection-limit/miscounted", f"connection states / countConnections differ from 'a peer is admitted iff the live connections including itself are <= maxConnections' "
+                                 f"(count {t['count']}, expected {len(live)})", rep, found_input=True)
+                break
+
+
 def shard(xs, k):
     return [xs[i::k] for i in range(k)]
 
 
-def run_drivers(ck, S, Cc, E, prims, wild):
+def run_drivers(ck, S, Cc, E, prims, wild, multi=()):
     """both frameworks, each in its own processes; returns results aligned with S, Cc, E per framework"""
     nshard = 3 if ck.quick() else 7
     out = {}
@@ -767,7 +818,8 @@ def run_drivers(ck, S, Cc, E, prims, wild):
     def work(fw, si):
         payload = {"fw": fw, "server": [c for c, _ in S[si::nshard]], "client": [c for c, _ in Cc[si::nshard]],
                    "e2e": [{k: v for k, v in e.items() if k != "meta"} for e in E[si::nshard]],
-                   "prims": prims if (si == 0 and fw == "tx") else [], "wild": wild if (si == 0 and fw == "tx") else []}
+                   "prims": prims if (si == 0 and fw == "tx") else [], "wild": wild if (si == 0 and fw == "tx") else [],
+                   "multi": list(multi) if si == 0 else []}
         try:
             r = ck.run_impl("ws_handshake.py", payload, timeout=3000)
         except Exception as e:
@@ -787,7 +839,7 @@ def run_drivers(ck, S, Cc, E, prims, wild):
         for si in range(nshard):
             r = out[(fw, si)]
             rs[si::nshard] = r["server"]; rc[si::nshard] = r["client"]; re_[si::nshard] = r["e2e"]
-        res[fw] = {"server": rs, "client": rc, "e2e": re_, "prims": out[(fw, 0)]["prims"], "wild": out[(fw, 0)]["wild"],
+        res[fw] = {"server": rs, "client": rc, "e2e": re_, "prims": out[(fw, 0)]["prims"], "wild": out[(fw, 0)]["wild"], "multi": out[(fw, 0)]["multi"],
                    "protocol_file": out[(fw, 0)]["protocol_file"]}
     return res
 
@@ -1082,11 +1134,12 @@ def run(ck):
     prims = prim_inputs(ck.rng("prims"), 25 if ck.quick() else 300)
     wild = wild_inputs(ck.rng("wild"), 300 if ck.quick() else 3000)
     ck.log(f"cases: server {len(S)}, client {len(Cc)}, e2e {len(E)}, prims {len(prims)}, wild {len(wild)}")
+    MULTI = multi_cases(ck.rng("multi"), 60 if ck.quick() else 600)
     # the implementation drivers (python subprocesses) run while Coq rebuilds the proofs
     box = {}
     def drive():
         try:
-            box["res"] = run_drivers(ck, S, Cc, E, prims, wild)
+            box["res"] = run_drivers(ck, S, Cc, E, prims, wild, MULTI)
         except BaseException as ex:
             box["err"] = ex
     th = threading.Thread(target=drive); th.start()
@@ -1102,7 +1155,8 @@ def run(ck):
     for fw in ("tx", "aio"):
         assert os.path.realpath(RES[fw]["protocol_file"]).startswith(os.path.realpath(vlib.REPO)), RES[fw]["protocol_file"]
         analyse(ck, fw, S, Cc, E, RES[fw])
-        ck.evaluations += len(S) + len(Cc) + len(E)
+        analyse_multi(ck, fw, MULTI, RES[fw]["multi"])
+        ck.evaluations += len(S) + len(Cc) + len(E) + len(MULTI)
     report_escapes(ck, S, Cc)
     # distinct non-trivial cases: complete header block reached processHandshake
     def nontrivial():
@@ -1134,6 +1188,20 @@ def run(ck):
         ck.violation("correspondence/wildcard-matcher", f"wild_match disagrees with re.match on pattern {wl[b][0]!r} string {wl[b][1]!r} (python: {wl[b][2]})", {"wild": wl[b]}, found_input=False)
     ck.bump("model_compared/prims", len(pt)); ck.bump("model_compared/wild", len(wt)); ck.evaluations += len(pt) + len(wt)
     ck.log(f"primitives: {len(badp)} of {len(pt)} disagree; wildcard matcher: {len(badw)} of {len(wt)} disagree")
+    # multi-connection traces against the factory model
+    mt, mi = [], []
+    for fw in ("tx", "aio"):
+        for case, x in zip(MULTI, RES[fw]["multi"]):
+            if "trace" in x:
+                ops = ";".join("FOpen" if o[0] == "open" else "(FLose %d%%nat)" % o[1] for o in case["ops"])
+                exp = ";".join("(%d,[%s])" % (t["count"], ";".join(cbool(st == "OPEN") for st in t["states"])) for t in x["trace"])
+                mt.append("(%d,[%s],[%s])" % (case["max"], ops, exp)); mi.append((fw, case))
+    badm = ck.coq_cases("multi", IMPORTS, "multi_case_ok", mt, ty="multi_case", shard=400)
+    for b in badm[:3]:
+        ck.violation("correspondence/multi/connection-limit", f"factory model and implementation disagree on a multi-connection trace ({mi[b][0]})",
+                     {"role": "multi", "framework": mi[b][0], "case": mi[b][1]}, found_input=False)
+    ck.bump("model_compared/multi", len(mt)); ck.evaluations += len(mt)
+    ck.log(f"multi-connection traces: {len(badm)} of {len(mt)} disagree")
     nbad = model_compare(ck, S, Cc, E, RES)
     if broken:
         ck.log(f"proof obligations broken: {broken}")
